@@ -183,7 +183,12 @@ CHECKS = {
          "stdout -- the usage screen of a fallback_to_usage level entered with an empty scope -- and the model's explicit panic/fuel outcomes); by "
          "mutual induction over the parser (Lemmas/CompNever.v: the request stays switched on with its revision, the items of the line never change, "
          "every final failure a subcommand hands up is completion output or stdout; C14_request_kept_by_every_parser) and the level lemma "
-         "C14_level_answers_with_completion_partial; C14_hidden_parser_offers_nothing (whatever a parser under hide() pushed is dropped); "
+         "C14_level_answers_with_completion_partial; C14_hints_name_visible_items_only / C14_every_parser_pushes_visible_names_only -- for EVERY parser definition every flag / argument / "
+         "command NAME among the hints a run collects is the name of a VISIBLE item of the definition (vis_names / vis_cmds skip everything under "
+         "hide()), wherever the hidden part stands; the plumbing (stash, swap, titles, completer values, shell completers, keep_a/keep_b, clones of "
+         "adjacent groups) never invents a name (Lemmas/CompVisible.v, mutual induction; hide() needs no hypothesis about the hidden parser) -- with "
+         "the second stage (every candidate stems from a hint) no candidate carries a name only a hidden item has; "
+         "C14_hidden_parser_offers_nothing (whatever a parser under hide() pushed is dropped); "
          "C14_command_name_typed_last (a subcommand whose name is the last item is not entered: the one hint is its name); "
          "C14_no_request_no_completion (without a request completers and bookkeeping change nothing, = C20). SECOND stage, Complete::complete "
          "(coq/Model/Complete.v): every candidate "
